@@ -34,6 +34,12 @@ type World struct {
 	Tier    string
 
 	LoadS, SSAS float64
+	// Notes of the loader (normalisation of new helpers); Normalized: calls were inlined
+	Notes      []string
+	Normalized bool
+	// NewTypes: named types of the module that are not on the reviewed list
+	NewTypes    map[string]bool
+	HasNewTypes bool
 
 	modFuncs []*ssa.Function // all source functions (incl. closures, instantiations) of module packages
 	cg       *callgraph.Graph
@@ -43,6 +49,76 @@ type World struct {
 // LoadWorld type-checks /repo/... (all build-relevant packages with their dependencies from
 // source) and builds SSA. overlay maps absolute file names to replacement content (self-test).
 func LoadWorld(repo string, overlay map[string][]byte, tier string, goos string) (*World, error) {
+	w, err := loadWorld(repo, overlay, tier, goos, false)
+	if err != nil {
+		return nil, err
+	}
+	reviewed := loadReviewedFuncs()
+	if reviewed == nil || os.Getenv("RVET_NO_NORMALIZE") != "" {
+		return w, nil
+	}
+	markNewTypes := func(x *World) {
+		x.NewTypes = map[string]bool{}
+		for path, p := range x.Mod {
+			if p.Types == nil {
+				continue
+			}
+			for _, name := range p.Types.Scope().Names() {
+				if tn, ok := p.Types.Scope().Lookup(name).(*types.TypeName); ok && !tn.IsAlias() && !reviewed["type "+path+"."+name] {
+					x.NewTypes[path+"."+name] = true
+					x.HasNewTypes = true
+				}
+			}
+		}
+	}
+	markNewTypes(w)
+	// helpers that did not exist on the reviewed tree are inlined back into their callers
+	ov2, notes := normalizeNewHelpers(w.Fset, w.Mod, reviewed)
+	if len(ov2) == 0 {
+		w.Notes = notes
+		return w, nil
+	}
+	merged := map[string][]byte{}
+	for k, v := range overlay {
+		merged[k] = v
+	}
+	for k, v := range ov2 {
+		merged[k] = v
+	}
+	if d := os.Getenv("RVET_DUMP_NORMALIZED"); d != "" {
+		_ = os.MkdirAll(d, 0o755)
+		for k, v := range ov2 {
+			_ = os.WriteFile(filepath.Join(d, strings.ReplaceAll(strings.TrimPrefix(k, repo+"/"), "/", "__")), v, 0o644)
+		}
+	}
+	w2, err2 := loadWorld(repo, merged, tier, goos, true)
+	if err2 != nil {
+		// never fail because of the normalisation: analyse the program as it is
+		w3, err3 := loadWorld(repo, overlay, tier, goos, false)
+		if err3 != nil {
+			return nil, err3
+		}
+		markNewTypes(w3)
+		w3.Notes = append(notes, "normalisation abandoned (the inlined source does not type-check: "+firstLine(err2.Error())+"); the program is analysed as written")
+		return w3, nil
+	}
+	w2.Notes = notes
+	w2.Normalized = true
+	markNewTypes(w2)
+	return w2, nil
+}
+
+func firstLine(s string) string {
+	if i := strings.IndexByte(s, '\n'); i >= 0 {
+		s = s[:i]
+	}
+	if len(s) > 300 {
+		s = s[:300]
+	}
+	return s
+}
+
+func loadWorld(repo string, overlay map[string][]byte, tier string, goos string, normalized bool) (*World, error) {
 	t0 := time.Now()
 	tmp, err := os.MkdirTemp("", "rvet-mod-")
 	if err != nil {
@@ -260,8 +336,74 @@ func (w *World) ModFuncs() []*ssa.Function {
 		return w.modFuncs
 	}
 	all := ssautil.AllFunctions(w.Prog)
+	// after normalisation a new helper all of whose calls were inlined is dead code: it is left
+	// out (with its closures), its body is analysed where it was inlined
+	orphan := map[*ssa.Function]bool{}
+	if w.Normalized {
+		reviewed := loadReviewedFuncs()
+		used := map[*ssa.Function]bool{}
+		for fn := range all {
+			if strings.HasPrefix(fn.Synthetic, "wrapper for") {
+				continue // promoted-method wrappers (embedding) are no uses
+			}
+			for _, b := range fn.Blocks {
+				for _, in := range b.Instrs {
+					for _, op := range in.Operands(nil) {
+						if op != nil && *op != nil {
+							if g, ok := (*op).(*ssa.Function); ok {
+								used[g] = true
+							}
+						}
+					}
+				}
+			}
+		}
+		for fn := range all {
+			if os.Getenv("RVET_DEBUG_NORM") != "" && strings.Contains(fn.String(), "appliedIndexListener") {
+				fmt.Fprintln(os.Stderr, "cand:", fn.String(), fn.Blocks == nil, !inModule(fn), fn.Parent() != nil, fn.Synthetic, used[fn])
+			}
+			if fn.Blocks == nil || !inModule(fn) || fn.Parent() != nil || fn.Synthetic != "" || used[fn] {
+				continue
+			}
+			obj, ok := fn.Object().(*types.Func)
+			if !ok || obj.Pkg() == nil || obj.Exported() && false {
+				continue
+			}
+			key := obj.Pkg().Path() + "."
+			if sig, ok := obj.Type().(*types.Signature); ok && sig.Recv() != nil {
+				if n, ok := deref(sig.Recv().Type()).(*types.Named); ok {
+					key += n.Obj().Name() + "."
+				}
+			}
+			key += obj.Name()
+			if reviewed != nil && !reviewed[key] && obj.Name() != "init" && obj.Name() != "main" {
+				// methods may still be reached through interfaces: only plain functions and
+				// methods of types that implement no module interface method of that name
+				if sig := obj.Type().(*types.Signature); sig.Recv() == nil || !obj.Exported() {
+					orphan[fn] = true
+					if os.Getenv("RVET_DEBUG_NORM") != "" {
+						fmt.Fprintln(os.Stderr, "orphan:", fn.String())
+					}
+				}
+			}
+		}
+	}
+	orphanObj := map[types.Object]bool{}
+	for f := range orphan {
+		if o := f.Object(); o != nil {
+			orphanObj[o] = true
+		}
+	}
+	isOrphan := func(fn *ssa.Function) bool {
+		for f := fn; f != nil; f = f.Parent() {
+			if orphan[f] || (f.Synthetic != "" && f.Object() != nil && orphanObj[f.Object()]) {
+				return true
+			}
+		}
+		return false
+	}
 	for fn := range all {
-		if fn.Blocks == nil || !inModule(fn) {
+		if fn.Blocks == nil || !inModule(fn) || isOrphan(fn) {
 			continue
 		}
 		w.modFuncs = append(w.modFuncs, fn)
